@@ -139,6 +139,12 @@ def specs(opts, prop="C13"):
         if bits(T) == 8 or (tier != "quick" and bits(T) == 16):
             out.append(("int", T, 0, True))
         out.append(("static", T))
+    if tier == "quick":
+        sc = [("i8", -3), ("u8", 1), ("i8", 0)] if prop == "C13" else [("i8", -3), ("u8", 1)]
+    else:
+        sc = [(T, E) for T in ("i8", "u8") for E in (-8, -3, -1, 0, 1, 3, 8)] + [("i16", -4), ("u16", -8), ("i16", 3)]
+    for (T, E) in sc:
+        out.append(("scaled", T, E))
     return out
 
 
@@ -148,6 +154,8 @@ def build(opts, prop):
         n = "K%d" % len(ks)
         if s[0] == "int":
             ks.append(mk_int(n, s[1], s[2], prop, symbolic_base=s[3]))
+        elif s[0] == "scaled":
+            ks.append(mk_scaled(n, s[1], s[2], prop))
         else:
             ks.append(mk_static(n, s[1], prop))
     return ks
@@ -155,3 +163,107 @@ def build(opts, prop):
 
 def kernels(opts):
     return build(opts, "C13")
+
+
+def mk_scaled(name, T, E, prop, N=12):
+    S = "cnl::scaled_integer<%s, cnl::power<%d>>" % (cpp(T), E)
+    args = [("v", T), ("n", "u8"), Arg("buf", "u8", "buf", n=N, out=True), Arg("out", "i32", "arr", n=2, out=True, init="uninit")]
+    body = ("    char* p = reinterpret_cast<char*>(buf);\n    auto r = cnl::to_chars(p, p + n, cnl::_impl::from_rep<%s>(v));\n"
+            "    out[0] = static_cast<int>(r.ptr - p); out[1] = static_cast<int>(r.ec);\n    return 0;") % S
+
+    def pre(env):
+        c = [env.a["n"] <= N]
+        if signed(T):
+            c.append(env.a["v"] > tmin(T))
+        return X.And(*c)
+
+    def claims(env, path):
+        if path.kind != "RET":
+            return [("unexpected-outcome", False)]
+        n, v = env.a["n"], env.a["v"]
+        p_off, ec = env.out(path, "out")
+        after = env.out(path, "buf")
+        before = env.a["buf"]
+        ok = X.eq(ec, 0)
+        cl = []
+        if prop == "C13":
+            cl.append(("status-is-success-or-value_too_large", X.Or(ok, X.eq(ec, EVALUE_TOO_LARGE))))
+            cl.append(("success-pointer-range", X.Implies(ok, X.And(p_off > 0, p_off <= n))))
+            cl.append(("failure-pointer-is-last", X.Implies(X.Not(ok), X.eq(p_off, n))))
+            for i in range(N):
+                cl.append(("byte%d-unchanged-outside-written-range" % i,
+                           X.Implies(X.Or(n <= i, X.And(ok, p_off <= i)), X.eq(after[i], before[i]))))
+        else:
+            cl += text_claims(after, p_off, ok, v, E, N)
+        return cl
+    return Kernel(name, args, "i32", body, mode="int", alt_modes=("bv",), W=48 if prop == "C13" else 110, pre=pre, claims=claims, unwind=80, max_paths=40000,
+                  timeout=60, desc="to_chars(scaled_integer<%s,%d>)" % (T, E), tags={"family": "scaled", "T": T, "E": E})
+
+
+def text_claims(b, L, ok, v, E, N):
+    """parse  -?d+ | -?d*.d+ | -?d(.d+)?e-?d+  symbolically (fold over the N buffer positions) and compare the
+    denoted decimal with the exact value v * 2^E: same sign, never above the true magnitude, less than one unit of the
+    last printed digit below it"""
+    neg = X.And(L > 0, X.eq(b[0], 45))
+    m = 0          # significand digits read so far (integer)
+    k = 0          # number of significand digits after the '.'
+    seen_dot = False
+    seen_e = False
+    eneg = False
+    ev = 0
+    nd = 0         # significand digit count
+    ned = 0        # exponent digit count
+    valid = True
+    for i in range(N):
+        c = b[i]
+        act = L > i
+        isd = X.And(c >= 48, c <= 57)
+        dv = c - 48
+        is_sign = X.eq(c, 45)
+        is_dot = X.eq(c, 46)
+        is_e = X.eq(c, 101)
+        first = (i == 0)
+        prev_e = X.eq(b[i - 1], 101) if i > 0 else False
+        in_sig = X.Not(seen_e) if not isinstance(seen_e, bool) else (not seen_e)
+        # significand digit
+        sig_digit = X.And(act, isd, in_sig)
+        m = X.ite(sig_digit, m * 10 + dv, m)
+        nd = X.ite(sig_digit, nd + 1, nd)
+        k = X.ite(X.And(sig_digit, seen_dot), k + 1, k)
+        # exponent digit
+        exp_digit = X.And(act, isd, seen_e)
+        ev = X.ite(exp_digit, ev * 10 + dv, ev)
+        ned = X.ite(exp_digit, ned + 1, ned)
+        # structure
+        ok_char = X.Or(isd,
+                       X.And(is_sign, X.Or(first, prev_e)),
+                       X.And(is_dot, in_sig, X.Not(seen_dot) if not isinstance(seen_dot, bool) else (not seen_dot)),
+                       X.And(is_e, in_sig, nd > 0))
+        valid = X.And(valid, X.Implies(act, ok_char))
+        eneg = X.Or(eneg, X.And(act, is_sign, prev_e))
+        seen_dot = X.Or(seen_dot, X.And(act, is_dot, in_sig))
+        seen_e = X.Or(seen_e, X.And(act, is_e))
+    # ("8." -- a radix point without fraction digits -- parses as a decimal and is accepted)
+    valid = X.And(valid, nd > 0, X.Implies(seen_e, ned > 0))
+    e10 = X.ite(eneg, -ev, ev)
+    s10 = X.ite(seen_e, e10, 0) - k       # text = +-m * 10^s10
+    mag = X.absv(v)
+    # exact |value| = mag * 2^E.  Compare m*10^s10 with mag*2^E without fractions: ladder over s10 in [-24, 24]
+    A = mag * (1 << E) if E >= 0 else mag           # |value| * 2^max(-E,0)
+    sc2 = 1 if E >= 0 else (1 << (-E))
+    le = False
+    near = False
+    for sv in range(-14, 15):
+        if sv >= 0:
+            t = m * (10 ** sv) * sc2
+            unit = (10 ** sv) * sc2
+            c_le, c_near = t <= A, A - t < unit
+        else:
+            t = m * sc2
+            c_le, c_near = t <= A * (10 ** (-sv)), A * (10 ** (-sv)) - t < sc2
+        le = X.Or(le, X.And(X.eq(s10, sv), c_le))
+        near = X.Or(near, X.And(X.eq(s10, sv), c_near))
+    return [("well-formed-decimal", X.Implies(ok, valid)),
+            ("sign-of-the-value", X.Implies(ok, X.Iff(neg, v < 0))),
+            ("never-exceeds-true-magnitude", X.Implies(ok, le)),
+            ("within-one-unit-of-last-digit", X.Implies(ok, near))]
